@@ -89,6 +89,15 @@ class EpSim:
 
     def route(self, peer, dr, d, net):
         r = self.r
+        fate_fn = getattr(self, "fate_fn", None)
+        if fate_fn is not None:
+            delays = fate_fn(self, peer, dr, d)     # None: leave it to `net`; []: lost; [d1, ...]: copies with these delays
+            if delays is not None:
+                d["fate"] = "drop" if not delays else "ok"
+                for dl in delays:
+                    self.order += 1
+                    self.inflight.append((self.time + dl, self.order, dr, peer, d["idx"]))
+                return
         if net.loss and r.below(1000) < net.loss:
             d["fate"] = "drop"; return
         copies = 1
